@@ -214,6 +214,12 @@ fn panic_key(r: &Res, input: &str) -> String {
         // conversion in some FFI function or macro: one defect, many call sites
         return "panic:poly-nonfinite-conversion-unwrap".to_string();
     }
+    if r.kind.contains("num-rational-") {
+        // panics inside the num-rational crate are keyed by their message: the overflow family is a known finding,
+        // anything else (a division by zero in `recip`, say) is not
+        let msg = r.detail.rsplit(":: ").next().unwrap_or("").trim();
+        return format!("{}num-rational:{}", if r.kind.starts_with("render-") { "render-panic:" } else { "panic:" }, msg);
+    }
     if r.kind.contains("library/core/src/ops/arith.rs") {
         // an overflow inside a core operator impl: only generic code (num-rational / num-integer on `Ratio<i128>`)
         // reaches those through the trait; numbat's own arithmetic on primitives reports numbat's source location.
@@ -416,6 +422,104 @@ fn grammar(rng: &mut Rng, depth: usize) -> String {
     }
 }
 
+/// parameter types of a printed signature `fn name<…>(a: T, b: U) -> R`
+fn param_types(sig: &str) -> Vec<String> {
+    let Some(open) = sig.find('(') else { return vec![] };
+    let mut depth = 0i32;
+    let mut cur = String::new();
+    let mut parts: Vec<String> = Vec::new();
+    for ch in sig[open..].chars() {
+        match ch {
+            '(' | '[' | '<' => { depth += 1; if depth > 1 { cur.push(ch); } }
+            ')' | ']' | '>' => { depth -= 1; if depth == 0 { break; } cur.push(ch); }
+            ',' if depth == 1 => { parts.push(std::mem::take(&mut cur)); }
+            _ => cur.push(ch),
+        }
+    }
+    if !cur.trim().is_empty() { parts.push(cur); }
+    parts.iter().map(|p| p.split_once(':').map(|(_, t)| t.trim().to_string()).unwrap_or_default()).collect()
+}
+
+/// an argument of the given printed type, biased towards the edges of its domain
+fn edge_arg(rng: &mut Rng, ty: &str, depth: usize) -> String {
+    let strings = ["", "a", "Numbat", "❤", "äb", "5 µm", "a❤b❤c", "{", "}", "\\", "a b  c", "0", "1e5", "-", "2022-07-20 21:52 +0200", "UTC", "Europe/Berlin", "m", "km/h", "%Y-%m-%d", "ｆｕｌｌ", "e\u{301}", "🙂🙂"];
+    let numbers = ["0", "1", "-1", "2", "3", "0.5", "-0.5", "1e308", "-1e308", "1e-308", "NaN", "inf", "-inf", "9007199254740993", "3.7", "255", "16", "65536", "1e10", "-3", "(-0)", "4294967296", "1e19", "(1/3)", "100"];
+    let t = ty.trim();
+    if t == "String" {
+        format!("\"{}\"", rng.pick(&strings))
+    } else if t == "Bool" {
+        rng.pick(&["true", "false"]).to_string()
+    } else if let Some(inner) = t.strip_prefix("List<").and_then(|r| r.strip_suffix('>')) {
+        let n = *rng.pick(&[0usize, 0, 1, 2, 3, 5]);
+        if depth == 0 { return "[]".into(); }
+        format!("[{}]", (0..n).map(|_| edge_arg(rng, inner, depth - 1)).collect::<Vec<_>>().join(", "))
+    } else if t == "DateTime" {
+        rng.pick(&["now()", "datetime(\"2022-07-20 21:52 +0200\")", "datetime(\"1969-12-31 23:59:59.5 UTC\")", "datetime(\"0001-01-01 00:00:00 UTC\")", "datetime(\"9999-12-31 23:59:59 UTC\")", "today()"]).to_string()
+    } else if t.starts_with("Fn[") {
+        rng.pick(&["sqr", "sqrt", "abs", "sin", "str_length", "is_nan", "head", "id", "floor"]).to_string()
+    } else if t == "Scalar" {
+        // a scalar parameter may be an iteration count (`catalan(n)`, `range(a, b)`): no huge and no infinite values
+        // here — work proportional to an argument, or an unbounded recursion, is outside the property
+        rng.pick(&["0", "1", "-1", "2", "3", "0.5", "-0.5", "1e-308", "NaN", "3.7", "255", "16", "1000", "-3", "(-0)", "(1/3)", "100", "-1000.5", "17"]).to_string()
+    } else {
+        // a dimension or a type parameter
+        let n = *rng.pick(&numbers);
+        match rng.below(6) {
+            0 => n.to_string(),
+            1 => format!("{} m", n),
+            2 => format!("{} s", n),
+            3 => format!("({} km/h)", n),
+            4 => format!("\"{}\"", rng.pick(&strings)),
+            _ => format!("{} K", n),
+        }
+    }
+}
+
+/// a call of a library function of the prelude session with arguments of the declared types
+fn ffi_call(rng: &mut Rng, fns: &[(String, Vec<String>)]) -> String {
+    let (name, params) = rng.pick(fns).clone();
+    let call = format!("{}({})", name, params.iter().map(|t| edge_arg(rng, t, 2)).collect::<Vec<_>>().join(", "));
+    match rng.below(8) {
+        0 => format!("print({})", call),
+        1 => format!("\"{{{}}}\"", call),
+        2 => format!("let r = {}\nr", call),
+        _ => call,
+    }
+}
+
+/// a dimensionful base raised to an exponent the checker has to evaluate at compile time: small integers under
+/// + - * / ^ (zero bases, negative and fractional exponents, divisions by zero included)
+fn const_exponent(rng: &mut Rng) -> String {
+    fn ex(rng: &mut Rng, depth: usize) -> String {
+        let ints = ["0", "1", "2", "3", "-1", "-2", "-3", "(1 - 1)", "(-0)", "0.5", "(1/2)", "10", "127", "(2^62)"];
+        if depth == 0 { return rng.pick(&ints).to_string(); }
+        match rng.below(8) {
+            // the singular points of exponent arithmetic: a zero base under a negative (or zero) exponent, a zero divisor
+            7 => {
+                let z = *rng.pick(&["0", "(1 - 1)", "(-0)", "(0 * 3)", "0.0"]);
+                let n = *rng.pick(&["-1", "(-1)", "-2", "(1 - 2)", "(-3)", "0", "(-1/2)"]);
+                if rng.chance(1, 4) { format!("({} / {})", ex(rng, depth - 1), z) } else { format!("({}^{})", z, n) }
+            }
+            0 => format!("({} + {})", ex(rng, depth - 1), ex(rng, depth - 1)),
+            1 => format!("({} - {})", ex(rng, depth - 1), ex(rng, depth - 1)),
+            2 => format!("({} * {})", ex(rng, depth - 1), ex(rng, depth - 1)),
+            3 => format!("({} / {})", ex(rng, depth - 1), ex(rng, depth - 1)),
+            4 | 5 => format!("({}^{})", ex(rng, depth - 1), ex(rng, depth - 1)),
+            _ => format!("(-{})", ex(rng, depth - 1)),
+        }
+    }
+    let d = 1 + rng.below(3);
+    let e = ex(rng, d);
+    match rng.below(6) {
+        0 => format!("m^{}", e),
+        1 => format!("(3 kg)^{}", e),
+        2 => format!("fn f(x: Length) = x^{}\nf(2 m)", e),
+        3 => format!("let a: Length^{} = 1 m", e),
+        4 => format!("unit uq = s^{}\n2 uq", e),
+        _ => format!("(2 m/s)^{} + 1", e),
+    }
+}
+
 fn soup(rng: &mut Rng) -> String {
     let n = 1 + rng.below(60);
     let mut s = String::new();
@@ -440,7 +544,7 @@ fn soup(rng: &mut Rng) -> String {
 fn main() {
     let args = Args::parse();
     let mut out = Out::new(&args);
-    out.rule = "inputs: (1) every example / standard-library line and small file, (2) 1-4 random edits (delete, insert token from an operator/keyword/unicode alphabet, duplicate, swap, cut, replace) of those, (3) grammar-generated programs with extreme literals and exponents, factorial runs, conversions, conditionals, calls, definitions, interpolation, (4) extreme shapes: repeated operators / nesting up to depth 500 / long literals and identifiers / huge lists, (5) random UTF-8 from eight code-point ranges; each in a fresh prelude session and a share of them in one accumulating session; diagnostics rendered for every error; 10 s watchdog (30 s for inputs over 20 kB). distinct = input line; non-trivial = at least 3 bytes".into();
+    out.rule = "inputs: (1) every example / standard-library line and small file, (2) 1-4 random edits (delete, insert token from an operator/keyword/unicode alphabet, duplicate, swap, cut, replace) of those, (3) grammar-generated programs with extreme literals and exponents, factorial runs, conversions, conditionals, calls, definitions, interpolation, (4) extreme shapes: repeated operators / nesting up to depth 500 / long literals and identifiers / huge lists, (5) random UTF-8 from eight code-point ranges, (6) calls of every function of the prelude session (parameter types read from its printed signature) with arguments from the edges of each type (empty / multi-byte / long strings, 0, negative, huge, fractional, NaN, infinite numbers, empty and short lists, extreme date-times), (7) dimensionful bases raised to compile-time exponent expressions over small integers (zero bases, negative and fractional exponents); each in a fresh prelude session and a share of them in one accumulating session; diagnostics rendered for every error; 10 s watchdog (30 s for inputs over 20 kB). distinct = input line; non-trivial = at least 3 bytes".into();
     let mut pool = Pool::new();
     let run_file = |p: &std::path::Path, out: &mut Out, pool: &mut Pool| {
         for l in read_lines(p) {
@@ -504,19 +608,29 @@ fn main() {
     for s in &shapes {
         judge(&mut pool, &mut out, s, "extreme_shape", false);
     }
-    // (2) (3) (5) random inputs
+    // every function of the prelude session with its declared parameter types
+    let fninfo: Vec<(String, Vec<String>)> = {
+        let ctx = nvh::qty::prelude_ctx();
+        let mut v: Vec<(String, Vec<String>)> = ctx.functions().map(|f| (f.fn_name.to_string(), param_types(&f.signature_str))).filter(|(n, _)| n != "exit" && n != "clear" && n != "random").collect();
+        v.sort();
+        v
+    };
+    out.count_n("library_functions", fninfo.len() as u64);
+    // (2) (3) (5) (6) (7) random inputs
     for i in 0..n {
         let session = i % 5 == 4;
         if session && i % 400 == 4 {
             pool.run(Job::ResetSession, Duration::from_secs(20));
         }
-        let (text, class) = match i % 10 {
+        let (text, class) = match i % 12 {
             0 | 1 => { let base = corpus[rng.below(corpus.len())].clone(); (mutate(&mut rng, &base), "mutated_corpus") }
             2 | 3 => { let base = corpus[rng.below(corpus.len())].clone(); let t = literal_subst(&mut rng, &base); (if rng.chance(1, 3) { literal_subst(&mut rng, &t) } else { t }, "literal_substitution") }
             4..=6 => { let d = 1 + rng.below(4); (grammar(&mut rng, d), "grammar") }
             7 => (soup(&mut rng), "utf8_soup"),
             8 => { let g = grammar(&mut rng, 2); (mutate(&mut rng, &g), "mutated_grammar") }
-            _ => { let a = corpus[rng.below(corpus.len())].clone(); let b = soup(&mut rng); (format!("{}{}", a.chars().take(40).collect::<String>(), b), "corpus_plus_soup") }
+            9 => { let a = corpus[rng.below(corpus.len())].clone(); let b = soup(&mut rng); (format!("{}{}", a.chars().take(40).collect::<String>(), b), "corpus_plus_soup") }
+            10 => (ffi_call(&mut rng, &fninfo), "library_call"),
+            _ => (const_exponent(&mut rng), "const_exponent"),
         };
         judge(&mut pool, &mut out, &format!("in {}", esc(&text)), class, session);
         if pool.hangs > 5 {
